@@ -10,7 +10,8 @@ from harness.drivers import synchb as D
 from harness.validate import validate
 
 FLAGS = {f for f, i in S.FLAG_INV.items() if i != "FailedNeverPromoted"} | {"rung_accounting"}
-FLAGS_C13 = {"failed_promoted", "failed_promoted_too_few_valid", "scheduler_raised", "resume_not_paused", "resume_after_removable"}
+FLAGS_C13 = {"failed_promoted", "failed_promoted_too_few_valid", "scheduler_raised", "resume_not_paused", "resume_after_removable",
+             "suggest_refused"}
 
 
 def gen(constants, genlen, num, seed):
@@ -33,7 +34,8 @@ def gen(constants, genlen, num, seed):
 
 
 def drive_validate(rep, behaviours, constants, flags_of_interest, tag, seed, pid="C05"):
-    conf = {"sys": S.SYSTEMS[constants["SysName"]], "min": constants["IsMin"], "mra": constants["MRA"]}
+    conf = {"sys": S.SYSTEMS[constants["SysName"]], "min": constants["IsMin"], "mra": constants["MRA"],
+            "de": constants.get("DE", False), "pr": constants.get("PR", True)}
     traces = []
     for i, g in enumerate(behaviours):
         traces.append(D.run_schedule(conf, g, seed + i).trace(i + 1))
@@ -54,6 +56,8 @@ def drive_validate(rep, behaviours, constants, flags_of_interest, tag, seed, pid
             if f in flags_of_interest:
                 crash = next((e for e in tr["ev"] if e["a"] == "Crash"), None)
                 sig = {"check": "trace", "flag": f, "clause": S.FLAG_INV.get(f, f)}
+                if tr["conf"].get("de"):
+                    sig["scheduler"] = "dehb"
                 if crash is not None and f == "scheduler_raised":
                     sig["where"] = crash["where"]
                     sig["exc"] = crash["exc"].split("(")[0]
@@ -71,7 +75,10 @@ def tables(tier):
          "cust": b(SysName="cust", Vals={0, 1}), "hb421": b(SysName="hb421", NT=6, Vals={0, 1}),
          "hb31_nofault": b(Faults=False, MaxRun=3, NT=6),
          # two failures in one rung: fewer valid results than slots in the next rung
-         "cust_2f": b(SysName="cust", NT=5, Vals={0, 1}, MaxFaults=2, MaxRun=3)}
+         "cust_2f": b(SysName="cust", NT=5, Vals={0, 1}, MaxFaults=2, MaxRun=3),
+         # Differential Evolution Hyperband on the same bracket manager (pause / resume only in the very first bracket)
+         "de31": b(SysName="de31", NT=6, DE=True, Vals={0, 1}), "de31_nopr_max": b(SysName="de31", NT=6, DE=True, PR=False, IsMin=False, MRA=False, Vals={0, 1}),
+         "de321": b(SysName="de321", NT=7, DE=True, Vals={0, 1}, Faults=False)}
     if tier == "thorough":
         t["hb421_3w"] = b(SysName="hb421", NT=7, Vals={0, 1}, MaxRun=3)
         t["cust_2f_deep"] = b(SysName="cust", NT=6, Vals={0, 1, 2}, MaxFaults=2, MaxRun=3)
@@ -82,8 +89,13 @@ def campaign_c13(rep, tier, seed):
     """Scheduler-level failures of synchronous Hyperband, judged under C13."""
     total = {}
     for name, c in {"hb31": S.base(), "cust_2f": S.base(SysName="cust", NT=5, Vals={0, 1}, MaxFaults=2, MaxRun=3),
-                    "hb421": S.base(SysName="hb421", NT=6, Vals={0, 1}, MaxFaults=2)}.items():
-        r = S.run_mc(c, S.INV + ["FailedNeverPromoted"] if False else S.INV)
+                    "hb421": S.base(SysName="hb421", NT=6, Vals={0, 1}, MaxFaults=2),
+                    # DEHB: one failure, and as many failures as the first rung has slots (known finding F17)
+                    "de31": S.base(SysName="de31", NT=6, DE=True, Vals={0, 1}),
+                    "de31_3f": S.base(SysName="de31", NT=7, DE=True, Vals={0, 1}, MaxFaults=3, MaxRun=3),
+                    "de321_2f": S.base(SysName="de321", NT=5, DE=True, Vals={0, 1}, MaxFaults=2, MaxRun=3)}.items():
+        # (the model reproduces F17 as well: NextJobNeverBlocks is judged on the traces, where it is matched as known finding)
+        r = S.run_mc(c, [i for i in S.INV if not (c.get("DE") and c.get("MaxFaults", 1) > 1 and i == "NextJobNeverBlocks")])
         rep.model(f"SyncHB_MC[{name}]", r)
         g = gen(c, 14 if tier == "quick" else 20, 25 if tier == "quick" else 300, seed * 171 + len(name))
         cnt = drive_validate(rep, g.gen, c, FLAGS_C13, f"synchb-failures:{name}", seed * 1000 + 5, pid="C13")
@@ -97,7 +109,8 @@ def run(rep, tier, seed):
         "metric values are small integers stored as floats; ties among equal metrics may be broken either way",
         "rung systems are legal (sizes strictly decreasing, levels strictly increasing)",
         "C05 ranks failed trials last but does not exclude them from promotion; promotion of a failed trial is judged under C13",
-        "DEHB's differential-evolution arithmetic is not modelled; its bracket manager is not driven in this revision",
+        "DEHB (cf.de): rung filling, bracket cycling, levels, milestones, pause/stop decisions and first-bracket promotions "
+        "are judged; its differential-evolution arithmetic (which configuration a new trial evaluates) is not modelled",
     )
     total = {}
     for name, c in tables(tier).items():
